@@ -3,7 +3,7 @@
 from __future__ import annotations
 
 from sa.report import Ctx
-from sa.sym import callkw, FALSE, NONE, NOT, Summary, conjuncts, show, walk
+from sa.sym import callkw, FALSE, NONE, NOT, Summary, conjuncts, show, walk, subst
 
 OPS = "soundevent.geometry.operations"
 
@@ -29,41 +29,111 @@ class C13:
         s = ctx.summ.of_func(OPS, "_compute_similarity_matrix")
         site = f"{self.file}:{s.node.lineno} _compute_similarity_matrix"
         ev, fn = ("param", s.params[0]), ("param", s.params[1])
-        loops = [l for l in s.loops.values() if l.kind == "for"]
         comb = ("call", ("ext", "itertools.combinations"), (("call", ("builtin", "enumerate"), (ev,), ()), ("const", 2)), ())
-        if len(loops) != 1 or loops[0].iter != comb or loops[0].conds:
-            ctx.bad("R13.1", self.file, "_compute_similarity_matrix", f"for ... in {show(loops[0].iter)[:60] if loops else '-'}",
+        I1, X1, I2, X2 = ("var", "i1"), ("var", "x1"), ("var", "i2"), ("var", "x2")
+
+        def canon_pair(t, lid):
+            """the pair loop's element in canonical variables: ((i1, x1), (i2, x2))"""
+            e = ("elem", lid)
+            return subst(t, {("sub", ("sub", e, ("const", 0)), ("const", 0)): I1, ("sub", ("sub", e, ("const", 0)), ("const", 1)): X1,
+                             ("sub", ("sub", e, ("const", 1)), ("const", 0)): I2, ("sub", ("sub", e, ("const", 1)), ("const", 1)): X2})
+
+        # every loop / generator that enumerates pairs must be the unfiltered-by-anything-else combinations(enumerate(events), 2)
+        pair_loops = [l for l in s.loops.values() if (l.iter[0] == "call" and l.iter[1][0] == "ext" and l.iter[1][1].startswith("itertools."))
+                      or l.iter == ev or (l.iter[0] == "call" and l.iter[1] in (("builtin", "enumerate"), ("builtin", "range"))
+                                          and any(x == ev for x in walk(l.iter)))]
+        wrong = [l for l in pair_loops if l.iter != comb]
+        if not pair_loops or wrong:
+            l = (wrong or [None])[0]
+            ctx.bad("R13.1", self.file, "_compute_similarity_matrix", f"for ... in {show(l.iter)[:60] if l else '-'}",
                     "the pair loop must run over combinations(enumerate(sound_events), 2): all unordered pairs of distinct events, "
                     "once each (product/permutations would compare an event with itself or each pair twice)", s.node.lineno)
             return
         ctx.ok("R13.1", site, "pairs = combinations(enumerate(sound_events), 2)")
-        L = loops[0]
-        e = ("elem", L.id)
-        i1, x1 = ("sub", ("sub", e, ("const", 0)), ("const", 0)), ("sub", ("sub", e, ("const", 0)), ("const", 1))
-        i2, x2 = ("sub", ("sub", e, ("const", 1)), ("const", 0)), ("sub", ("sub", e, ("const", 1)), ("const", 1))
-        # R13.2 single call site
+        # R13.2 single call site of the comparison function, on the pair's two elements, for every pair
         calls = [c for c in s.calls if c.term[1] == fn]
-        if len(calls) == 1 and set(calls[0].term[2]) == {x1, x2} and len(calls[0].term[2]) == 2 and not calls[0].term[3] \
-                and all(c[0] == "inloop" for c in conjuncts(calls[0].live)):
+        good_call = False
+        if len(calls) == 1 and calls[0].loops and s.loops[calls[0].loops[-1]].iter == comb:
+            lid = calls[0].loops[-1]
+            args = canon_pair(calls[0].term, lid)[2]
+            good_call = set(args) == {X1, X2} and len(args) == 2 and not calls[0].term[3] \
+                and all(c[0] == "inloop" for c in conjuncts(calls[0].live)) and len(calls[0].loops) == 1
+        if good_call:
             ctx.ok("R13.2", f"{self.file}:{calls[0].lineno} _compute_similarity_matrix", "comparison_fn called once per pair, on the two distinct elements")
         else:
             ctx.bad("R13.2", self.file, "_compute_similarity_matrix", f"comparison_fn call sites: {[show(c.term)[:50] for c in calls]}",
                     "the comparison function must be called exactly once per unordered pair, on the two (distinct) events of the pair",
                     calls[0].lineno if calls else s.node.lineno)
             return
-        cond = calls[0].term
-        exts = [c for c in s.calls if c.term[1][0] == "attr" and c.term[1][2] in ("extend", "append") and L.id in c.loops]
-        lists = {}
-        for c in exts:
-            recv = c.term[1][1]
-            arg = c.term[2][0] if c.term[2] else None
-            pos = [x for x in conjuncts(c.live) if x[0] != "inloop"]
-            if pos != [cond] and pos != [NOT(NOT(cond))]:
-                ctx.bad("R13.1", self.file, "_compute_similarity_matrix", f"{show(c.term)[:50]} under {show(c.live)[:40]}",
-                        "an adjacency entry is recorded under a condition other than `comparison_fn(a, b)` being true", c.lineno)
-                return
-            items = list(arg[1]) if arg is not None and arg[0] in ("list", "tuple") and c.term[1][2] == "extend" else [arg]
-            lists.setdefault(recv, []).extend(items)
+        COND = canon_pair(calls[0].term, calls[0].loops[-1])
+
+        def perpair(t, depth=0):
+            """What one similar pair contributes to the list `t`: a list of canonical item terms, or
+            ('uniform', c, list whose length it copies); None when the list is not built per similar pair."""
+            if depth > 4:
+                return None
+            if t[0] == "alloc":
+                muts = [c for c in s.calls if c.term[1][0] == "attr" and c.term[1][1] == t and c.term[1][2] in ("append", "extend", "insert", "pop", "remove", "clear", "sort", "reverse")]
+                stores = [e_ for e_ in s.events if e_.kind in ("store", "delete") and any(x == t for x in walk(e_.term))]
+                if not muts or stores:
+                    return None
+                items = []
+                for c in muts:
+                    if c.term[1][2] not in ("append", "extend") or len(c.term[2]) != 1 or len(c.loops) != 1 or s.loops[c.loops[0]].iter != comb:
+                        return None
+                    lid = c.loops[0]
+                    pos = [canon_pair(x, lid) for x in conjuncts(c.live) if x[0] != "inloop"]
+                    if pos != [COND]:
+                        return ("badcond", c)
+                    arg = canon_pair(c.term[2][0], lid)
+                    if c.term[1][2] == "extend":
+                        if arg[0] not in ("list", "tuple"):
+                            return None
+                        items += list(arg[1])
+                    else:
+                        items.append(arg)
+                return items
+            if t[0] == "comp" and t[1] == "list":
+                gens = t[3]
+                lid0, it0, conds0 = gens[0]
+                if it0 == comb:
+                    if [canon_pair(c, lid0) for c in conds0] != [COND]:
+                        return ("badcond", None)
+                    if len(gens) == 1:
+                        return [canon_pair(t[2], lid0)]
+                    base_items = [canon_pair(("elem", lid0), lid0)]
+                    rest = gens[1:]
+                    outer_el = ("elem", lid0)
+                else:
+                    inner = perpair(it0, depth + 1)
+                    if not isinstance(inner, list) or conds0:
+                        return inner if isinstance(inner, tuple) else None
+                    if len(gens) == 1:
+                        return [subst(t[2], {("elem", lid0): it_}) for it_ in inner]
+                    base_items = inner
+                    rest = gens[1:]
+                    outer_el = ("elem", lid0)
+                if len(rest) != 1 or rest[0][2]:
+                    return None
+                lid1, it1, _ = rest[0]
+                rev = False
+                if it1[0] == "call" and it1[1] == ("builtin", "reversed") and it1[2] == (outer_el,):
+                    rev = True
+                elif it1 != outer_el:
+                    return None
+                out = []
+                for bi in base_items:
+                    if bi[0] not in ("tuple", "list"):
+                        return None
+                    comps = list(bi[1])[::-1] if rev else list(bi[1])
+                    out += [subst(t[2], {("elem", lid1): c_, outer_el: bi}) for c_ in comps]
+                return out
+            if t[0] == "bin" and t[1] == "*":
+                for lst, n in ((t[2], t[3]), (t[3], t[2])):
+                    if lst[0] == "list" and len(lst[1]) == 1 and n[0] == "call" and n[1] == ("builtin", "len") and len(n[2]) == 1:
+                        return ("uniform", lst[1][0], n[2][0])
+            return None
+
         coo = [c for c in s.calls if c.term[1][0] == "ext" and c.term[1][1].split(".")[-1] in ("coo_array", "coo_matrix", "csr_array", "csr_matrix")]
         if len(coo) != 1 or not coo[0].term[2]:
             ctx.undec("R13.1", site, "sparse matrix construction not found")
@@ -73,9 +143,22 @@ class C13:
             ctx.undec("R13.1", site, f"matrix data is not (values, (rows, cols)): {show(arg0)[:60]}")
             return
         vals, (a, b) = arg0[1][0], arg0[1][1][1]
-        la, lb, lv = lists.get(a, []), lists.get(b, []), lists.get(vals, [])
-        sym = len(la) == len(lb) == len(lv) and len(la) > 0 and sorted(zip(la, lb), key=repr) == sorted(zip(lb, la), key=repr) \
-            and set(la) == {i1, i2} and len(set(map(repr, lv))) == 1
+        la, lb, lv = perpair(a), perpair(b), perpair(vals)
+        for x in (la, lb, lv):
+            if isinstance(x, tuple) and x and x[0] == "badcond":
+                c = x[1]
+                ctx.bad("R13.1", self.file, "_compute_similarity_matrix", f"{show(c.term)[:50] if c else 'comprehension filter'}",
+                        "an adjacency entry is recorded under a condition other than `comparison_fn(a, b)` being true", c.lineno if c else s.node.lineno)
+                return
+        if not isinstance(la, list) or not isinstance(lb, list) or lv is None:
+            ctx.undec("R13.1", site, "cannot tell what one similar pair contributes to the index / value lists")
+            return
+        if isinstance(lv, tuple) and lv[0] == "uniform":
+            vals_ok = lv[2] in (a, b)
+        else:
+            vals_ok = len(lv) == len(la) and len(set(map(repr, lv))) == 1
+        sym = len(la) == len(lb) and len(la) > 0 and sorted(zip(la, lb), key=repr) == sorted(zip(lb, la), key=repr) \
+            and set(la) == {I1, I2} and vals_ok
         if sym:
             ctx.ok("R13.1", f"{self.file}:{coo[0].lineno} _compute_similarity_matrix", "both (i, j) and (j, i) recorded for every similar pair")
         else:
@@ -95,15 +178,16 @@ class C13:
         s = ctx.summ.of_func(OPS, "group_sound_events")
         site = f"{self.file}:{s.node.lineno} group_sound_events"
         ev, fn = ("param", s.params[0]), ("param", s.params[1])
-        mat = ("call", ("global", f"{OPS}:_compute_similarity_matrix", "func"), (ev, fn), ())
+        mat = ctx.normcalls(("call", ("global", f"{OPS}:_compute_similarity_matrix", "func"), (ev, fn), ()))
         cc = [c for c in s.calls if c.term[1][0] == "ext" and c.term[1][1].endswith("connected_components")]
         if len(cc) != 1:
             ctx.undec("R13.3", site, "connected_components call not found")
             return
         t = cc[0].term
         kw = callkw(t)
-        okc = t[2][:1] == (mat,) and kw.get("connection", ("const", "weak")) == ("const", "weak") and len(t[2]) == 1 \
-            and set(kw) <= {"directed", "connection", "return_labels"} and kw.get("return_labels", ("const", True)) == ("const", True)
+        graph = t[2][0] if t[2] else kw.get("csgraph")
+        okc = graph is not None and ctx.normcalls(graph) == mat and kw.get("connection", ("const", "weak")) == ("const", "weak") and len(t[2]) <= 1 \
+            and set(kw) <= {"csgraph", "directed", "connection", "return_labels"} and kw.get("return_labels", ("const", True)) == ("const", True)
         if okc:
             ctx.ok("R13.3", f"{self.file}:{cc[0].lineno} group_sound_events", "labels = connected_components(similarity matrix) (weak connectivity)")
         else:
